@@ -163,33 +163,33 @@ Proof.
 Qed.
 
 (* ---- flush ---- *)
-Definition before_flush (g : cfg) (s : state) (objs : list obj_st) : state :=
-  if existsb (obj_modified g) objs
+Definition before_flush (g : cfg) (s : state) (objs : list obj_st) (ents : list ent_ev) : state :=
+  if existsb (obj_modified g) objs || existsb (tracked g) ents
   then match u_cur (s_uow s) with None => create_transaction s | Some _ => s end
   else s.
 
-Lemma before_flush_inv g s objs : Inv1 s -> Inv1 (before_flush g s objs).
+Lemma before_flush_inv g s objs ents : Inv1 s -> Inv1 (before_flush g s objs ents).
 Proof.
-  intro H. unfold before_flush. destruct (existsb (obj_modified g) objs); [|exact H].
+  intro H. unfold before_flush. destruct (existsb (obj_modified g) objs || existsb (tracked g) ents); [|exact H].
   destruct (u_cur (s_uow s)) eqn:E; [exact H | apply create_transaction_inv; assumption].
 Qed.
 
-Lemma before_flush_invw g s objs : Inv1w s -> Inv1w (before_flush g s objs).
+Lemma before_flush_invw g s objs ents : Inv1w s -> Inv1w (before_flush g s objs ents).
 Proof.
-  intro H. unfold before_flush. destruct (existsb (obj_modified g) objs); [|exact H].
+  intro H. unfold before_flush. destruct (existsb (obj_modified g) objs || existsb (tracked g) ents); [|exact H].
   destruct (u_cur (s_uow s)) eqn:E; [exact H | apply create_transaction_invw; assumption].
 Qed.
 
 (* the flush after its before_flush part: it never touches the transaction table or `cur` *)
 Lemma flush_unfold g s objs ents assoc :
   g_versioning g = true ->
-  let s1 := before_flush g s objs in
+  let s1 := before_flush g s objs ents in
   d_tx (s_db (flush g s objs ents assoc)) = d_tx (s_db s1) /\
   u_cur (s_uow (flush g s objs ents assoc)) = u_cur (s_uow s1) /\
   s_committed (flush g s objs ents assoc) = s_committed s1.
 Proof.
-  intro Hv. unfold flush. rewrite Hv. simpl. fold (before_flush g s objs).
-  set (s1 := before_flush g s objs).
+  intro Hv. unfold flush. rewrite Hv. simpl. fold (before_flush g s objs ents).
+  set (s1 := before_flush g s objs ents).
   destruct (u_cur (s_uow s1)) as [T|] eqn:Ecur; [|simpl; auto].
   destruct (fold_left (track g) ents (u_ops (s_uow s1))) as [|o ops'] eqn:Eops; [simpl; auto|].
   destruct (g_native g); [simpl; auto|].
@@ -199,12 +199,12 @@ Qed.
 
 Lemma flush_tx_ok g s objs ents assoc :
   g_versioning g = true ->
-  let s1 := before_flush g s objs in
+  let s1 := before_flush g s objs ents in
   tx_ok (s_db s1) ->
   (forall T, u_cur (s_uow s1) = Some T -> In T (d_tx (s_db s1))) ->
   tx_ok (s_db (flush g s objs ents assoc)).
 Proof.
-  intros Hv s1 [V [A [C P]]] Hcur. unfold flush. rewrite Hv. simpl. fold (before_flush g s objs). fold s1.
+  intros Hv s1 [V [A [C P]]] Hcur. unfold flush. rewrite Hv. simpl. fold (before_flush g s objs ents). fold s1.
   destruct (u_cur (s_uow s1)) as [T|] eqn:Ecur.
   2:{ simpl. repeat split; assumption. }
   specialize (Hcur T eq_refl).
@@ -235,7 +235,7 @@ Proof. intro Hv. unfold flush. rewrite Hv. simpl. repeat split; reflexivity. Qed
 Lemma flush_inv g s objs ents assoc : Inv1 s -> Inv1 (flush g s objs ents assoc).
 Proof.
   intro H. destruct (g_versioning g) eqn:Hv.
-  - pose proof (before_flush_inv g s objs H) as H1.
+  - pose proof (before_flush_inv g s objs ents H) as H1.
     destruct (flush_unfold g s objs ents assoc Hv) as [Etx [Ecur Ecom]].
     destruct H1 as [Hdb [Hc [Hcur [Hsub Hnone]]]].
     unfold Inv1, cur_ok, tx_sub. rewrite Etx, Ecur, Ecom.
@@ -251,7 +251,7 @@ Qed.
 Lemma flush_invw g s objs ents assoc : Inv1w s -> Inv1w (flush g s objs ents assoc).
 Proof.
   intro H. destruct (g_versioning g) eqn:Hv.
-  - pose proof (before_flush_invw g s objs H) as H1.
+  - pose proof (before_flush_invw g s objs ents H) as H1.
     destruct (flush_unfold g s objs ents assoc Hv) as [Etx [Ecur Ecom]].
     destruct H1 as [Hdb [Hc [Hcur Hsub]]].
     unfold Inv1w, tx_sub. rewrite Etx, Ecur, Ecom.
@@ -368,9 +368,9 @@ Theorem flush_stamps_current g s objs ents assoc :
 Proof.
   intros s' i Hi. subst s'. unfold flush in *.
   destruct (g_versioning g); simpl in *; [|auto].
-  fold (before_flush g s objs) in *. set (s1 := before_flush g s objs) in *.
+  fold (before_flush g s objs ents) in *. set (s1 := before_flush g s objs ents) in *.
   assert (Evt : d_vt (s_db s1) = d_vt (s_db s)).
-  { unfold s1, before_flush. destruct (existsb (obj_modified g) objs); [|reflexivity].
+  { unfold s1, before_flush. destruct (existsb (obj_modified g) objs || existsb (tracked g) ents); [|reflexivity].
     destruct (u_cur (s_uow s)); reflexivity. }
   destruct (u_cur (s_uow s1)) as [T|] eqn:Ecur; [|simpl in *; rewrite Evt in Hi; auto].
   destruct (fold_left (track g) ents (u_ops (s_uow s1))) as [|o ops'] eqn:Eops;
@@ -392,15 +392,15 @@ Theorem flush_keeps_transaction g s objs ents assoc T :
 Proof.
   intros Hv Hc. destruct (flush_unfold g s objs ents assoc Hv) as [Etx [Ecur _]].
   rewrite Etx, Ecur. unfold before_flush. rewrite Hc.
-  destruct (existsb (obj_modified g) objs); auto.
+  destruct (existsb (obj_modified g) objs || existsb (tracked g) ents); auto.
 Qed.
 
 Theorem flush_creates_at_most_one g s objs ents assoc :
   g_versioning g = true -> u_cur (s_uow s) = None ->
   let s' := flush g s objs ents assoc in
-  (existsb (obj_modified g) objs = false ->
+  (existsb (obj_modified g) objs || existsb (tracked g) ents = false ->
      d_tx (s_db s') = d_tx (s_db s) /\ u_cur (s_uow s') = None) /\
-  (existsb (obj_modified g) objs = true ->
+  (existsb (obj_modified g) objs || existsb (tracked g) ents = true ->
      exists T, d_tx (s_db s') = d_tx (s_db s) ++ [T] /\ u_cur (s_uow s') = Some T /\
                forall t, In t (d_tx (s_db s)) -> t < T).
 Proof.
